@@ -14,7 +14,7 @@
                       term+"Map" for text) are pairwise different, the type field is read as a string under "type",
                       and acc_ok holds for the tables reachable from k's MarshalJSON.
    Definitions only. *)
-From AP.Model Require Import Prelude Bytes Vocab Layout JsonTables Dispatch JsonEnc JsonCheck.
+From AP.Model Require Import Prelude Bytes Vocab Layout JsonTables Dispatch JsonEnc JsonCheck JsonDec.
 
 Definition key_plain (k : bytes) : bool := forallb is_alpha k.
 
@@ -24,13 +24,15 @@ Definition nonval (g : wguard) : bool := match g with GValNonEmpty => false | _ 
 (* ---------------------------------------------------------------- a (write, read) pair *)
 Definition guard_fits (ty : gotype) (f : fid) (g : wguard) : bool :=
   match g with
-  | GNeNil f' => fid_beq f f' && match ty with TItem | TItems | TNlv => true | _ => false end
+  | GNeNil f' => fid_beq f f' && match ty with TItem | TItems | TNlv | TEndpoints => true | _ => false end
   | GLenGt0 f' => fid_beq f f' && match ty with TItems | TNlv | TString => true | _ => false end
   | GNotZeroTime f' => fid_beq f f' && match ty with TTime => true | _ => false end
   | GNe0 f' => fid_beq f f' && match ty with TDur | TUint | TInt64 | TFloat => true | _ => false end
   | GGt0 f' => fid_beq f f' && match ty with TUint => true | _ => false end
   | GValNonEmpty => true
-  | GOther _ => false
+  | GOther src =>       (* the one guard of that kind the encoder model evaluates: id, owner or pem of the actor's key is set *)
+      bytes_eqb src pubkey_guard_src && fid_beq f F_PublicKey
+      && match ty with TPubKey => true | _ => false end
   end.
 
 Definition is_nlv_writer (e : wflat) : bool := bytes_eqb (wf_writer e) (B "JSONWriteNaturalLanguageProp").
@@ -52,10 +54,7 @@ Definition pair_ok_core (ty : gotype) (f : fid) (e : wflat) (r : rflat) : bool :
   match wf_path e with [f'] => fid_beq f f' | _ => false end
   && bytes_eqb (wf_term e) (rf_term r) && key_plain (wf_term e)
   && writer_fits ty e && getter_fits ty r
-  && match ty with
-     | TSource | TEndpoints | TPubKey => true        (* values of these types are outside the proved class: only *)
-     | _ => forallb (guard_fits ty f) (wf_guards e)  (* the unset case is used, for which the guards do not matter *)
-     end
+  && forallb (guard_fits ty f) (wf_guards e)
   && conv_ok ty r
   && match ty with TOther _ => false | _ => true end.
 
@@ -141,14 +140,125 @@ Section Acc.
 
 End Acc.
 
-(* ---------------------------------------------------------------- a struct kind *)
-Definition str_getters : list bytes :=
-  [B "JSONGetID"; B "JSONGetType"; B "JSONGetMimeType"; B "JSONGetString"; B "JSONGetIRI"; B "JSONGetLangRefField"].
-
 Fixpoint nodup_bytes (l : list bytes) : bool :=
   match l with [] => true | x :: r => negb (existsb (bytes_eqb x) r) && nodup_bytes r end.
 Fixpoint nodup_fid_list (l : list fid) : bool :=
   match l with [] => true | x :: r => negb (existsb (fid_beq x) r) && nodup_fid_list r end.
+
+(* ---------------------------------------------------------------- the three leaf structs *)
+(* Source, Endpoints and PublicKey are written by a MarshalJSON table of their own (property statements only) and read
+   by a table of their own (GetAPSource on the object itself, under the names "<outer>.<name>"; JSONGetActorEndpoints
+   and JSONLoadPublicKey on the member).  Their parts, with the Go types the value universe gives them: *)
+Definition leaf_layout (ty : gotype) : list (fid * gotype) :=
+  match ty with
+  | TSource => [(F_Content, TNlv); (F_MediaType, TString)]
+  | TEndpoints => map (fun f => (f, TItem)) endpoints_struct_order
+  | TPubKey => [(F_ID, TString); (F_Owner, TString); (F_PublicKeyPem, TString)]
+  | _ => []
+  end.
+Definition leaf_type (ty : gotype) (f : fid) : option gotype :=
+  match find (fun p => fid_beq (fst p) f) (leaf_layout ty) with Some p => Some (snd p) | None => None end.
+(* the table names are those the two interpreters call (Model/JsonTree.v t_value, Model/JsonDec.v get_value) *)
+Definition leaf_wtable (ty : gotype) : bytes :=
+  match ty with
+  | TSource => B "Source_MarshalJSON" | TEndpoints => B "Endpoints_MarshalJSON" | TPubKey => B "PublicKey_MarshalJSON"
+  | _ => []
+  end.
+Definition leaf_rtable (ty : gotype) : bytes :=
+  match ty with
+  | TSource => B "GetAPSource" | TEndpoints => B "JSONGetActorEndpoints" | TPubKey => B "JSONLoadPublicKey"
+  | _ => []
+  end.
+
+Fixpoint leaf_entries (l : list wstmt) : option (list wflat) :=
+  match l with
+  | [] => Some []
+  | WProp t w p v g acc _ :: r =>
+      match acc with
+      | AccOther => None
+      | _ => match leaf_entries r with Some rs => Some (mkwf t w p v g :: rs) | None => None end
+      end
+  | _ => None
+  end.
+Fixpoint leaf_reads (l : list rstmt) : option (list rflat) :=
+  match l with
+  | [] => Some []
+  | RProp f t g c gd _ :: r => match leaf_reads r with Some rs => Some (mkrf f t g c gd :: rs) | None => None end
+  | _ => None
+  end.
+
+(* a read entry as seen from the struct's own JSON object: the two raw fastjson getters are the string getter, and the
+   names GetAPSource reads are cut after "<outer>." *)
+Definition leaf_getter (g : bytes) : bytes :=
+  if bytes_eqb g (B "val.GetStringBytes") || bytes_eqb g (B "val.Get.GetStringBytes") then B "JSONGetString" else g.
+Definition source_getter_ok (g : bytes) : bool :=
+  bytes_eqb g (B "JSONGetNaturalLanguageField")
+  || existsb (bytes_eqb g) [B "JSONGetID"; B "JSONGetType"; B "JSONGetMimeType"; B "JSONGetString"; B "JSONGetIRI";
+                            B "JSONGetLangRefField"; B "val.GetStringBytes"; B "val.Get.GetStringBytes"].
+Definition leaf_strip (outer : bytes) (ty : gotype) (r : rflat) : option rflat :=
+  match ty with
+  | TSource =>
+      match cut_byte x2e (rf_term r) with
+      | (a, Some b) =>
+          if bytes_eqb a outer && source_getter_ok (rf_getter r)
+          then Some (mkrf (rf_fid r) b (leaf_getter (rf_getter r)) (rf_conv r) (rf_guard r)) else None
+      | _ => None
+      end
+  | _ => Some (mkrf (rf_fid r) (rf_term r) (leaf_getter (rf_getter r)) (rf_conv r) (rf_guard r))
+  end.
+Fixpoint leaf_strip_all (outer : bytes) (ty : gotype) (rs : list rflat) : option (list rflat) :=
+  match rs with
+  | [] => Some []
+  | r :: rest =>
+      match leaf_strip outer ty r, leaf_strip_all outer ty rest with
+      | Some r', Some rest' => Some (r' :: rest')
+      | _, _ => None
+      end
+  end.
+
+Definition leaf_read_ok (ty : gotype) (es : list wflat) (r : rflat) : bool :=
+  match leaf_type ty (rf_fid r) with
+  | Some ity =>
+      match filter (entry_for (rf_fid r)) es with
+      | [e] => pair_ok ity (rf_fid r) e r
+      | _ => false
+      end
+  | None => false
+  end.
+
+Section Leaf.
+  Variable jw_tables : list (bytes * bool * list wstmt).
+  Variable jr_tables : list (bytes * list rstmt).
+
+  (* the write and read tables of leaf struct ty, whose member is written and read under the name outer, fit together:
+     every read entry has exactly one write entry with pair_ok (at the Go type of the part), every part is read exactly
+     once, the member names are pairwise different and plain, no write entry lacks a reader, notEmpty is accumulated *)
+  Definition leaf_ok (outer : bytes) (ty : gotype) : bool :=
+    match jw_table jw_tables (leaf_wtable ty), jr_table jr_tables (leaf_rtable ty) with
+    | Some (_, ws), Some rstmts =>
+        match leaf_entries ws, leaf_reads rstmts with
+        | Some es, Some rs0 =>
+            match leaf_strip_all outer ty rs0 with
+            | Some rs =>
+                forallb (leaf_read_ok ty es) rs
+                && nodup_fid_list (map rf_fid rs)
+                && forallb (fun d => existsb (fun r => fid_beq (rf_fid r) (fst d)) rs) (leaf_layout ty)
+                && nodup_bytes (flat_map keys_of es)
+                && forallb (fun e => key_plain (wf_term e)) es
+                && forallb (fun e => existsb (fun r => entry_for (rf_fid r) e) rs) es
+                && acc_ok jw_tables 1 (leaf_wtable ty)
+            | None => false
+            end
+        | _, _ => false
+        end
+    | _, _ => false
+    end.
+End Leaf.
+
+(* ---------------------------------------------------------------- a struct kind *)
+Definition str_getters : list bytes :=
+  [B "JSONGetID"; B "JSONGetType"; B "JSONGetMimeType"; B "JSONGetString"; B "JSONGetIRI"; B "JSONGetLangRefField"].
+
 
 Section Kind.
   Variable jw_tables : list (bytes * bool * list wstmt).
@@ -162,6 +272,7 @@ Section Kind.
     | Some d =>
         bytes_eqb (rf_term r) (fd_term d) &&
         match fd_type d with TSource => source_reads_ok jr_tables (rf_term r) | _ => true end &&
+        match fd_type d with TSource | TEndpoints | TPubKey => leaf_ok jw_tables jr_tables (rf_term r) (fd_type d) | _ => true end &&
         match filter (entry_for (rf_fid r)) es with
         | [e] => pair_ok (fd_type d) (rf_fid r) e r
         | _ => false
@@ -189,6 +300,7 @@ Section Kind.
         && nodup_fid_list (map fd_fid (layout_of k))
         && type_read_ok k rs
         && acc_ok jw_tables 6 (marshal_table k)
+        && match flatten_w jw_tables 5 (marshal_table k) with Some _ => true | None => false end   (* a leaf table can still be called *)
     | _, _ => false
     end.
 
